@@ -26,6 +26,9 @@ import numpy as np
 
 ROOT = os.path.dirname(os.path.dirname(os.path.abspath(__file__)))
 KNOWN_FILE = os.path.join(ROOT, "known_findings.json")
+# mutation experiments (VERIF_REPO pointing at a scratch worktree) must not clobber the committed evidence
+_ALT = os.environ.get("VERIF_REPO", "/repo") != "/repo"
+OUT = os.path.join(ROOT, "scratch", "alt_" + os.path.basename(os.environ.get("VERIF_REPO", "x").rstrip("/"))) if _ALT else ROOT
 MAX_SAMPLES = 6
 MAX_VIOL_PER_SIG = 3
 
@@ -286,9 +289,10 @@ class Ctx(Result):
                 known_hits.append((sig, k[0], vs))
             else:
                 new.append((sig, vs))
-        for g in self.required_guards:
-            if self.guards.get(g, 0) <= 0:
-                raise HarnessError("vacuity guard '%s' is zero: the exploration did not exercise what it claims" % g)
+        if not new:  # with a violation in hand the run is a verdict; an emptied guarded branch is then part of it
+            for g in self.required_guards:
+                if self.guards.get(g, 0) <= 0:
+                    raise HarnessError("vacuity guard '%s' is zero: the exploration did not exercise what it claims" % g)
         rc = 0
         for sig, k, vs in known_hits:
             print("KNOWN-FINDING: property=%s %s -- %s" % (self.pid, sig, k.get("what", "")))
@@ -350,8 +354,8 @@ class Ctx(Result):
             "wall_s": round(time.time() - self.t0, 3),
             "violations": int(n_viol),
         }
-        os.makedirs(os.path.join(ROOT, "evidence"), exist_ok=True)
-        path = os.path.join(ROOT, "evidence", "%s.json" % self.pid)
+        os.makedirs(os.path.join(OUT, "evidence"), exist_ok=True)
+        path = os.path.join(OUT, "evidence", "%s.json" % self.pid)
         tmp = path + ".tmp"
         with open(tmp, "w") as f:
             json.dump(ev, f, indent=1)
@@ -366,7 +370,7 @@ def load_known():
 
 
 def write_replay(pid, sig, v):
-    d = os.path.join(ROOT, "replays", pid)
+    d = os.path.join(OUT, "replays", pid)
     os.makedirs(d, exist_ok=True)
     path = os.path.join(d, "%s.json" % digest([sig, v["case"]]))
     with open(path, "w") as f:
